@@ -183,13 +183,16 @@ func VerifierCase(c *Case) M {
 	}
 	opts = append(opts, rp.WithSupportedSigningAlgorithms(alg)) // last: the relying-party path takes the algorithms from discovery instead
 	v := rp.NewIDTokenVerifier(vIssuer, vClientID, staticKeys{trusted.Pub}, opts...)
-	if S(cfg, "via") == "rpOIDC" {
+	var party rp.RelyingParty
+	if S(cfg, "via") != "direct" {
 		// the verifier a relying party builds for itself: options handed over with WithVerifierOpts, algorithms taken from discovery
 		jw, _ := json.Marshal(jose.JSONWebKeySet{Keys: []jose.JSONWebKey{{Key: trusted.Pub, KeyID: "rp-trusted", Use: "sig"}}})
 		disc, _ := json.Marshal(M{"issuer": vIssuer, "authorization_endpoint": vIssuer + "/authorize", "token_endpoint": vIssuer + "/token", "jwks_uri": vIssuer + "/keys",
 			"id_token_signing_alg_values_supported": []string{alg}})
-		hc := &http.Client{Transport: docTransport{"/.well-known/openid-configuration": disc, "/keys": jw}}
-		party, err := rp.NewRelyingPartyOIDC(context.Background(), vIssuer, vClientID, "", "https://rp.example.test/cb", []string{"openid"},
+		tokenResp, _ := json.Marshal(M{"access_token": accessToken, "token_type": "Bearer", "expires_in": 3600, "refresh_token": "next-refresh-token", "id_token": token})
+		hc := &http.Client{Transport: docTransport{"/.well-known/openid-configuration": disc, "/keys": jw, "/token": tokenResp}}
+		var err error
+		party, err = rp.NewRelyingPartyOIDC(context.Background(), vIssuer, vClientID, "", "https://rp.example.test/cb", []string{"openid"},
 			rp.WithHTTPClient(hc), rp.WithVerifierOpts(opts[:len(opts)-1]...), rp.WithSigningAlgsFromDiscovery())
 		if err != nil {
 			panic("harness: " + err.Error())
@@ -201,6 +204,20 @@ func VerifierCase(c *Case) M {
 	var got *oidc.IDTokenClaims
 	var err error
 	p := CatchPanic(func() {
+		switch S(cfg, "via") {
+		case "rpRefresh":
+			var toks *oidc.Tokens[*oidc.IDTokenClaims]
+			if toks, err = rp.RefreshTokens[*oidc.IDTokenClaims](context.Background(), party, "refresh-token", "", ""); err == nil {
+				got = toks.IDTokenClaims
+			}
+			return
+		case "rpExchange":
+			var toks *oidc.Tokens[*oidc.IDTokenClaims]
+			if toks, err = rp.CodeExchange[*oidc.IDTokenClaims](context.Background(), "code", party); err == nil {
+				got = toks.IDTokenClaims
+			}
+			return
+		}
 		if B(t, "withAT") {
 			got, err = rp.VerifyTokens[*oidc.IDTokenClaims](context.Background(), accessToken, token, v)
 		} else {
